@@ -15,7 +15,7 @@ BUILDS = ["default", "raw", "sync", "both"]
 def _trace(binary, sd, a, b, tier, timeout=240):
     cmd = [binary, "trace", "--seed", str(sd), "--from", str(a), "--to", str(b), "--tier", tier]
     try:
-        r = subprocess.run(cmd, capture_output=True, text=True, timeout=timeout)
+        r = H.run_killable(cmd, timeout)
     except subprocess.TimeoutExpired:
         return None, "timeout"
     if r.returncode != 0:
@@ -38,7 +38,7 @@ def _replay_case(binary, case, full=False):
         path = f.name
     try:
         cmd = [binary, "trace", "--replay", path] + (["--full"] if full else [])
-        r = subprocess.run(cmd, capture_output=True, text=True, timeout=300)
+        r = H.run_killable(cmd, 300)
         for line in r.stdout.splitlines():
             if line.startswith("{"):
                 return json.loads(line)["d"]
